@@ -42,6 +42,8 @@ UNARY = [
     Op("filt_cnull", lambda d: d[d.c.isna()], family="filter"),
     Op("filt_cne", lambda d: d[d.c != 1.0], family="filter"),
     Op("filt_isin", lambda d: d[d.b.isin([0, 3])], family="filter"),
+    # a predicate that is NOT row-local (cumulative): order sensitive
+    Op("filt_cum", lambda d: d[d.b.cumsum() > 5], family="cumfilter"),
     Op("assign_z", lambda d: d.assign(z=d.a + d.b), family="assign"),
     Op("assign_a", lambda d: d.assign(a=d.a * 2), family="assign"),
     Op("add1", lambda d: d + 1, family="elemwise"),
@@ -132,6 +134,7 @@ def _binary_programs():
     out.append(("nested_fused3", lambda t: _opt(_opt(t["L"].a + 1) * t["L"].b) - t["L"].a, False, "fusion"))
     # two repartitions of one frame in one graph (upwards: split keys; downwards)
     out.append(("two_reparts_up", lambda t: _concat([_rep(t["L"], 5), _rep(t["L"], 7)]), False, "repartition"))
+    out.append(("two_reparts_size", lambda t: _concat([_repsize(t["L"], "100B"), _repsize(t["L"], "60B")]), False, "repartition"))
     out.append(("two_reparts_mixed", lambda t: _concat([_rep(t["L"], 2), _rep(t["L"], 6)])[["a"]], False, "repartition"))
     # different partition selections of ONE source combined again (no pandas meaning: family "partitions")
     out.append(("concat_parts_axis1", lambda t: _concat([_parts(t["L"], [0, 1])[["a"]], _parts(t["L"], [1]).b], axis=1), False, "partitions"))
@@ -163,6 +166,10 @@ def _parts(x, P):
 
 def _shuf(x):
     return x.shuffle("b", shuffle_method="tasks") if _dd(x) else x
+
+
+def _repsize(x, size):
+    return x.repartition(partition_size=size) if _dd(x) else x
 
 
 def _rep(x, n):
@@ -201,7 +208,7 @@ def _tail_ok(chain):
     return True
 
 
-_ORDER_SENSITIVE = {"cumulative", "overlap", "head", "dropdup"}  # drop_duplicates(subset) keeps the FIRST row per key
+_ORDER_SENSITIVE = {"cumulative", "overlap", "head", "dropdup", "cumfilter"}  # drop_duplicates(subset) keeps the FIRST row per key
 _TIE_MAKERS = {"clip", "diff1", "shift1", "fillna0", "abs", "assign_a", "astype_f", "cumsum", "add1", "mappart", "assign_z"}
 
 
